@@ -229,10 +229,21 @@ def _run_one(args):
     tin, tout = os.path.join(d, 'in.json'), os.path.join(d, 'out.json')
     with open(tin, 'w') as f:
       json.dump(dict(mod=modname, fn=fname, task=task), f)
+    if isinstance(task, dict) and task.get('task_timeout'):
+      timeout = task['task_timeout']
+    # own session: on a time-out the whole process group (worker and the solver processes it started) is stopped
+    proc = subprocess.Popen([sys.executable, '-m', 'vp.worker', tin, tout], stdout=subprocess.PIPE, stderr=subprocess.PIPE, text=True,
+                            env=dict(os.environ), start_new_session=True)
     try:
-      p = subprocess.run([sys.executable, '-m', 'vp.worker', tin, tout], capture_output=True, text=True, timeout=timeout,
-                         env=dict(os.environ))
+      so, se = proc.communicate(timeout=timeout)
+      p = subprocess.CompletedProcess(proc.args, proc.returncode, so, se)
     except subprocess.TimeoutExpired:
+      import signal
+      try:
+        os.killpg(proc.pid, signal.SIGKILL)
+      except OSError:
+        pass
+      proc.communicate()
       if isinstance(task, dict) and task.get('stretch'):
         return {'errors': [], 'configs': 0, 'results': [dict(name=f'stretch task {task!r}', status='unknown', kind='stretch', queries=0,
                                                              note=f'stopped after {timeout}s: undecided, excluded from the claim')]}
